@@ -1,10 +1,10 @@
 """C10 - a merchant appears in a view exactly when the view's filter is true of it.
 
-Exhaustive: every views file made of 1..K views over a 23-filter alphabet (documented primitives, aggregates,
+Exhaustive: every views file made of 1..K views over a 24-filter alphabet (documented primitives, aggregates,
 by(month|year|week|day), period(), max_val, a global variable, a view-local variable shadowing a global, an
-unevaluable filter, `true`) x every set of 1..3 merchants over 12 payment histories (single payment, same
+unevaluable filter, `true`) x every set of 1..3 merchants over 13 payment histories (single payment, same
 month different days, same day, equal months, varied months, refund, same month number in two years, income /
-transfer / investment tags in three letter cases, a recurring-tagged one, a zero-total one), driven through the
+transfer / investment tags in three letter cases, a recurring-tagged one, a zero-total one, a net-refund one with negative mean), driven through the
 real chain analyze_transactions -> classify_by_sections -> compute_section_totals.  Membership is compared with
 primitives recomputed from the raw transactions (real dates) by mc/ref/views.py.  Transition oracles: a view's
 membership is the same whatever other views are present and in whatever order (compared with the one-view
@@ -21,7 +21,7 @@ from mc.ref import money
 PROPERTY = "C10"
 LEVEL = "exploration"
 RULE = ("cases = every sequence of 1..K distinct views (K=2 quick; thorough: K=2 over all 23 filters plus K=3 over a 10-filter sub-alphabet) x every set of 1..3 "
-        "merchants over 12 payment histories; each case runs the real analyse/classify chain once and judges every (view, merchant) pair. "
+        "merchants over 13 payment histories; each case runs the real analyse/classify chain once and judges every (view, merchant) pair. "
         "non-trivial = (view, merchant) pairs whose filter is evaluable and that are members of some but not all views of the file; cases distinct by construction")
 ASSUMPTIONS = ["payments / total / months / cv / by() are recomputed from the raw transactions with their real dates; cv is the population coefficient of variation of monthly totals",
                "not judged: cv when the mean monthly total is 0; by(\"week\") across a year boundary (%W vs ISO); stddev(); two views with the same name",
@@ -41,11 +41,12 @@ HIST = [
     ("Invest", "Finance", "401k", ["InVestment", "recurring"], [(D(2025, 1, 1), 300.0)]),
     ("Club", "food", "Grocery", ["recurring", "b"], [(D(2025, 1, 7), 20.0), (D(2025, 2, 7), 20.0), (D(2025, 3, 7), 22.0)]),
     ("Zero", "Bills", "Power", [], [(D(2025, 1, 9), 50.0), (D(2025, 2, 9), -50.0)]),
+    ("NetRefund", "Shopping", "Returns", [], [(D(2025, 1, 9), -30.0), (D(2025, 2, 9), -10.0)]),     # negative mean: cv = -0.5
 ]
 
 PREAMBLE = "thresh = 100\nbig = total > thresh\n\n"
 FILTERS = [  # (name, local variable lines, filter)
-    ("Months2", [], "months >= 2"), ("Over100", [], "total > 100"), ("Steady", [], "cv < 0.3"), ("Flat", [], "cv == 0"),
+    ("Months2", [], "months >= 2"), ("Over100", [], "total > 100"), ("Steady", [], "cv < 0.3"), ("Flat", [], "cv == 0"), ("NegCv", [], "cv < 0"),
     ("FoodCat", [], 'category == "food"'), ("NotX", [], 'subcategory != "x"'), ("Rec", [], '"Recurring" in tags'), ("SumP", [], "sum(payments) > 100"),
     ("Count2", [], "count(payments) >= 2"), ("Avg50", [], "avg(payments) > 50"), ("Max90", [], "max(payments) > 90"), ("Neg", [], "min(payments) < 0"),
     ("PeakMonth", [], 'max(sum(by("month"))) > 100'), ("BusyDay", [], 'max(count(by("day"))) >= 2'), ("Weeks2", [], 'count(sum(by("week"))) >= 2'),
@@ -53,7 +54,7 @@ FILTERS = [  # (name, local variable lines, filter)
     ("GlobalVar", [], "big"), ("LocalShadow", ["thresh = 1000"], "total > thresh"), ("Broken", [], 'total > "x"'), ("Everything", [], "true"),
     ("UsesGlobal", [], "total > thresh and months >= 1"),
 ]
-SUB10 = [0, 2, 6, 12, 13, 16, 18, 19, 20, 22]
+SUB10 = [0, 2, 4, 7, 13, 14, 17, 19, 20, 21]
 
 
 def views_text(seq):
